@@ -9,6 +9,7 @@ CONSTANTS
   ScrollOffC = 1
   InputlessC = FALSE
   Multis = {2}
+  Tracks = {0}
   ActFilter = "query"
 INIT Init
 NEXT Next
